@@ -486,6 +486,139 @@ fn cmd_embedded_font() {
     println!("{{\"cmd\":\"embedded-font\",\"bound\":\"7 strings (ASCII, Cyrillic, code-point runs crossing U+00FF/U+0100 and U+04FF/U+0500) x text API / graphics API / both on one page, Roboto fixture\",\"evaluated\":{},\"disagreement_count\":{},\"disagreements\":[{}]}}", evaluated, n, bad.join(","));
 }
 
+// C01 Eb: hostile inputs with boundary integers in the numeric slots that drive offsets, counts and allocations, plus a few
+// structural traps (deep nesting, self-referencing /Prev and /Kids, empty lines after an xref table). Each case runs in a CHILD
+// process (address-space cap 4 GiB, 20 s wall clock) under all five parsing presets and then navigates the document; the
+// parent reports every child that panics, aborts (allocation failure, stack overflow), or does not finish.
+fn hostile_cases() -> Vec<(String, Vec<u8>)> {
+    fn classic(objs: &[(u32, String)], xref_override: Option<String>, trailer_extra: &str, tail: &str) -> Vec<u8> {
+        let mut out = b"%PDF-1.7\n".to_vec(); let mut offs: Vec<(u32, usize)> = vec![];
+        for (n, body) in objs { offs.push((*n, out.len())); out.extend_from_slice(format!("{n} 0 obj\n{body}\nendobj\n").as_bytes()); }
+        let xref = out.len(); let size = objs.iter().map(|o| o.0).max().unwrap_or(0) + 1;
+        match xref_override {
+            Some(x) => out.extend_from_slice(x.as_bytes()),
+            None => { out.extend_from_slice(format!("xref\n0 {size}\n0000000000 65535 f \n").as_bytes());
+                      for n in 1..size { match offs.iter().find(|o| o.0 == n) { Some((_, o)) => out.extend_from_slice(format!("{o:010} 00000 n \n").as_bytes()), None => out.extend_from_slice(b"0000000000 00000 f \n") } } }
+        }
+        out.extend_from_slice(format!("trailer\n<< /Size {size} /Root 1 0 R {trailer_extra}>>\nstartxref\n{xref}\n%%EOF\n{tail}").as_bytes());
+        out
+    }
+    let cat = |extra: &str| (1u32, format!("<< /Type /Catalog /Pages 2 0 R {extra}>>"));
+    let pages = |extra: &str| (2u32, format!("<< /Type /Pages /Kids [3 0 R] /Count 1 {extra}>>"));
+    let page = |extra: &str| (3u32, format!("<< /Type /Page /Parent 2 0 R /MediaBox [0 0 200 200] /Contents 4 0 R {extra}>>"));
+    let content = |body: &str, dict: &str| (4u32, format!("<< /Length {} {dict}>>\nstream\n{body}\nendstream", body.len()));
+    let base = |c: (u32, String)| vec![cat(""), pages(""), page(""), c];
+    let ints = ["-1", "0", "2147483647", "2147483648", "4294967295", "4294967296", "9223372036854775807", "-9223372036854775808", "99999999999999999999999"];
+    let mut cases: Vec<(String, Vec<u8>)> = vec![];
+    cases.push(("valid baseline".into(), classic(&base(content("BT /F1 12 Tf (hi) Tj ET", "")), None, "", "")));
+    for v in ints {
+        cases.push((format!("stream /Length {v}"), classic(&[cat(""), pages(""), page(""), (4, format!("<< /Length {v} >>\nstream\nBT (x) Tj ET\nendstream"))], None, "", "")));
+        cases.push((format!("/Pages /Count {v}"), classic(&[cat(""), (2, format!("<< /Type /Pages /Kids [3 0 R] /Count {v} >>")), page(""), content("q Q", "")], None, "", "")));
+        cases.push((format!("/Rotate {v}"), classic(&[cat(""), pages(""), page(&format!("/Rotate {v} ")), content("q Q", "")], None, "", "")));
+        cases.push((format!("trailer /Prev {v}"), classic(&base(content("q Q", "")), None, &format!("/Prev {v} "), "")));
+        cases.push((format!("trailer /Size {v}"), { let mut f = classic(&base(content("q Q", "")), None, "", ""); let t = String::from_utf8_lossy(&f).replace("/Size 5", &format!("/Size {v}")); f = t.into_bytes(); f }));
+        cases.push((format!("xref subsection start {v}"), classic(&base(content("q Q", "")), Some(format!("xref\n{v} 2\n0000000000 65535 f \n0000000009 00000 n \n")), "", "")));
+        cases.push((format!("xref subsection count {v}"), classic(&base(content("q Q", "")), Some(format!("xref\n0 {v}\n0000000000 65535 f \n0000000009 00000 n \n")), "", "")));
+        for key in ["Columns", "Colors", "BitsPerComponent", "Predictor", "EarlyChange"] {
+            cases.push((format!("Flate /DecodeParms /{key} {v}"), classic(&base(content("x", &format!("/Filter /FlateDecode /DecodeParms << /Predictor 12 /{key} {v} >> "))), None, "", "")));
+        }
+        // cross-reference stream with the value in /Size, /Index and /W; object stream with it in /N and /First
+        for (slot, dict) in [("Size", format!("/Size {v} /W [1 2 1] /Index [0 5]")), ("Index first", format!("/Size 6 /W [1 2 1] /Index [{v} 5]")), ("Index count", format!("/Size 6 /W [1 2 1] /Index [0 {v}]")),
+                             ("W[0]", format!("/Size 6 /W [{v} 2 1]")), ("W[1]", format!("/Size 6 /W [1 {v} 1]")), ("W[2]", format!("/Size 6 /W [1 2 {v}]"))] {
+            let mut out = b"%PDF-1.7\n".to_vec(); let mut offs = vec![];
+            for (n, body) in [cat(""), pages(""), page(""), content("q Q", "")] { offs.push(out.len()); out.extend_from_slice(format!("{n} 0 obj\n{body}\nendobj\n").as_bytes()); }
+            let xpos = out.len(); let mut data: Vec<u8> = vec![0, 0, 0, 255];
+            for o in &offs { data.push(1); data.extend_from_slice(&(*o as u16).to_be_bytes()); data.push(0); }
+            data.push(1); data.extend_from_slice(&(xpos as u16).to_be_bytes()); data.push(0);
+            out.extend_from_slice(format!("5 0 obj\n<< /Type /XRef {dict} /Root 1 0 R /Length {} >>\nstream\n", data.len()).as_bytes());
+            out.extend_from_slice(&data); out.extend_from_slice(format!("\nendstream\nendobj\nstartxref\n{xpos}\n%%EOF\n").as_bytes());
+            cases.push((format!("xref stream {slot} = {v}"), out));
+        }
+        for (slot, dict, body) in [("N", format!("/N {v} /First 4"), "6 0 42 ".to_string()), ("First", format!("/N 1 /First {v}"), "6 0 42 ".to_string()), ("member offset", "/N 1 /First 20".to_string(), format!("6 {v}              42 "))] {
+            let mut out = b"%PDF-1.7\n".to_vec(); let mut offs = vec![];
+            for (n, b) in [cat("/Extra 6 0 R "), pages(""), page(""), content("q Q", ""), (5u32, format!("<< /Type /ObjStm {dict} /Length {} >>\nstream\n{body}\nendstream", body.len()))] { offs.push(out.len()); out.extend_from_slice(format!("{n} 0 obj\n{b}\nendobj\n").as_bytes()); }
+            let xpos = out.len(); let mut data: Vec<u8> = vec![0, 0, 0, 255];
+            for o in &offs { data.push(1); data.extend_from_slice(&(*o as u16).to_be_bytes()); data.push(0); }
+            data.extend_from_slice(&[2, 0, 5, 0]);   // object 6: in object stream 5, index 0
+            data.push(1); data.extend_from_slice(&(xpos as u16).to_be_bytes()); data.push(0);
+            out.extend_from_slice(format!("7 0 obj\n<< /Type /XRef /Size 8 /W [1 2 1] /Root 1 0 R /Length {} >>\nstream\n", data.len()).as_bytes());
+            out.extend_from_slice(&data); out.extend_from_slice(format!("\nendstream\nendobj\nstartxref\n{xpos}\n%%EOF\n").as_bytes());
+            cases.push((format!("object stream {slot} = {v}"), out));
+        }
+    }
+    // structural traps
+    for depth in [1000usize, 100_000] {
+        cases.push((format!("array nested {depth} deep in the catalog"), classic(&[cat(&format!("/Deep {}{} ", "[".repeat(depth), "]".repeat(depth))), pages(""), page(""), content("q Q", "")], None, "", "")));
+        cases.push((format!("dictionary nested {depth} deep in the catalog"), classic(&[cat(&format!("/Deep {}{} ", "<</A ".repeat(depth), ">>".repeat(depth))), pages(""), page(""), content("q Q", "")], None, "", "")));
+        cases.push((format!("content stream: {depth} nested q"), classic(&base(content(&"q ".repeat(depth), "")), None, "", "")));
+        cases.push((format!("content stream: {depth} nested ["), classic(&base(content(&format!("{} TJ", "[".repeat(depth)), "")), None, "", "")));
+        cases.push((format!("content stream: {depth} nested ("), classic(&base(content(&format!("BT {} Tj ET", "(".repeat(depth)), "")), None, "", "")));
+        cases.push((format!("{depth} semicolons before the catalog dictionary"), classic(&[(1, format!("{} << /Type /Catalog /Pages 2 0 R >>", ";".repeat(depth))), pages(""), page(""), content("q Q", "")], None, "", "")));
+    }
+    cases.push(("100000 comment lines before the catalog dictionary".into(), classic(&[(1, format!("{}<< /Type /Catalog /Pages 2 0 R >>", "% c\n".repeat(100_000))), pages(""), page(""), content("q Q", "")], None, "", "")));
+    cases.push(("page tree 3000 levels deep".into(), { let mut objs = vec![cat("")]; for n in 2..3002u32 { objs.push((n, format!("<< /Type /Pages /Kids [{} 0 R] /Count 1 >>", n + 1))); } objs.push((3002, "<< /Type /Page /Parent 3001 0 R /MediaBox [0 0 10 10] >>".into())); classic(&objs, None, "", "") }));
+    cases.push(("reference chain 3000 long".into(), { let mut objs = vec![cat("/Chain 5 0 R "), pages(""), page(""), content("q Q", "")]; for n in 5..3005u32 { objs.push((n, format!("{} 0 R", n + 1))); } objs.push((3005, "42".into())); classic(&objs, None, "", "") }));
+    cases.push(("xref table followed by empty lines at end of file".into(), { let mut f = classic(&base(content("q Q", "")), Some("xref\n0 5\n0000000000 65535 f \n\n\n\n".into()), "", ""); f.extend_from_slice(b"\n\n\n"); f }));
+    cases.push(("file ends inside the xref table".into(), { let f = classic(&base(content("q Q", "")), None, "", ""); let k = f.windows(4).position(|w| w == b"xref").unwrap(); f[..k + 12].to_vec() }));
+    cases.push(("/Kids refers to its own /Pages node".into(), classic(&[cat(""), (2, "<< /Type /Pages /Kids [2 0 R 3 0 R] /Count 2 >>".into()), page(""), content("q Q", "")], None, "", "")));
+    cases.push(("/Parent chain cycle with inherited attributes".into(), classic(&[cat(""), (2, "<< /Type /Pages /Kids [3 0 R] /Count 1 /Parent 3 0 R >>".into()), (3, "<< /Type /Page /Parent 2 0 R /Contents 4 0 R >>".into()), content("q Q", "")], None, "", "")));
+    cases.push(("/Length is an indirect reference to the stream itself".into(), classic(&[cat(""), pages(""), page(""), (4, "<< /Length 4 0 R >>\nstream\nq Q\nendstream".into())], None, "", "")));
+    cases.push(("inline image with no data".into(), classic(&base(content("q BI /W 1 /H 1 /BPC 8 /CS /G ID EI Q", "")), None, "", "")));
+    cases.push(("ASCII85 group above 2^32".into(), classic(&base(content("s8W-!s8W-!~>", "/Filter /ASCII85Decode ")), None, "", "")));
+    cases.push(("RunLength run past the end".into(), classic(&base(content("\u{7f}ab", "/Filter /RunLengthDecode ")), None, "", "")));
+    cases
+}
+fn cmd_hostile_case(i: usize) {
+    // child: run one case under every preset; a panic is reported through the exit code, an abort through the signal
+    use oxidize_pdf::parser::PdfReader;
+    let cases = hostile_cases();
+    let (name, data) = &cases[i];
+    let presets = [("default", ParseOptions::default()), ("strict", ParseOptions::strict()), ("tolerant", ParseOptions::tolerant()), ("lenient", ParseOptions::lenient()), ("skip_errors", ParseOptions::skip_errors())];
+    for (pname, opt) in presets {
+        let data = data.clone(); let pn = pname.to_string();
+        let r = panic::catch_unwind(move || {
+            if let Ok(reader) = PdfReader::new_with_options(std::io::Cursor::new(data), opt) {
+                let doc = reader.into_document();
+                if let Ok(n) = doc.page_count() {
+                    for p in 0..n.min(3) {
+                        let _ = doc.get_page(p);
+                        let _ = doc.extract_text_from_page(p);
+                    }
+                }
+                let _ = doc.metadata();
+            }
+        });
+        if r.is_err() { eprintln!("PANIC in case {:?} under preset {}", name, pn); std::process::exit(101); }
+    }
+}
+fn cmd_hostile_inputs() {
+    let cases = hostile_cases();
+    let exe = std::env::current_exe().unwrap();
+    let mut bad: Vec<String> = vec![]; let mut nbad = 0u64;
+    let results: Vec<(usize, String)> = {
+        let idx: Vec<usize> = (0..cases.len()).collect();
+        let chunks: Vec<Vec<usize>> = idx.chunks((cases.len() + 7) / 8).map(|c| c.to_vec()).collect();
+        let handles: Vec<_> = chunks.into_iter().map(|chunk| { let exe = exe.clone(); std::thread::spawn(move || {
+            let mut out = vec![];
+            for i in chunk {
+                let start = std::time::Instant::now();
+                let mut child = match std::process::Command::new("sh").arg("-c").arg(format!("ulimit -v 4194304; ulimit -c 0; exec {} hostile-case {}", exe.display(), i)).stdout(std::process::Stdio::null()).stderr(std::process::Stdio::null()).spawn() { Ok(c) => c, Err(e) => { out.push((i, format!("spawn failed: {e}"))); continue; } };
+                let verdict = loop {
+                    match child.try_wait() {
+                        Ok(Some(st)) => { use std::os::unix::process::ExitStatusExt; break if st.success() { String::new() } else if let Some(sig) = st.signal() { format!("killed by signal {sig} (abort / stack overflow / allocation failure)") } else { format!("exit code {:?} (panic)", st.code()) }; }
+                        Ok(None) => { if start.elapsed().as_secs() >= 20 { let _ = child.kill(); let _ = child.wait(); break "did not finish within 20 s".to_string(); } std::thread::sleep(std::time::Duration::from_millis(20)); }
+                        Err(e) => break format!("wait failed: {e}"),
+                    }
+                };
+                out.push((i, verdict));
+            }
+            out }) }).collect();
+        handles.into_iter().flat_map(|h| h.join().unwrap()).collect()
+    };
+    for (i, v) in &results { if !v.is_empty() { nbad += 1; if bad.len() < 40 { bad.push(format!("{{\"case\":{},\"outcome\":{}}}", js(&cases[*i].0), js(v))); } } }
+    println!("{{\"cmd\":\"hostile-inputs\",\"bound\":\"{} generated files (9 boundary integers in 27 numeric slots, 23 structural traps) x 5 presets, each in a child process capped at 4 GiB and 20 s\",\"evaluated\":{},\"disagreement_count\":{},\"disagreements\":[{}]}}", cases.len(), cases.len() * 5, nbad, bad.join(","));
+}
+
 fn cmd_fmt() {
     // Ec: the concrete contracts of the R6 formatting stubs used by Verus units, over all 256 bytes
     let hd = |n: u8| if n < 10 { b'0' + n } else { b'A' + n - 10 };
@@ -977,6 +1110,8 @@ fn main() {
         Some("a85hex-roundtrip") => cmd_a85hex_roundtrip(args.get(2).and_then(|s| s.parse().ok()).unwrap_or(4)),
         Some("fmt") => cmd_fmt(),
         Some("opnames") => cmd_opnames(),
+        Some("hostile-inputs") => cmd_hostile_inputs(),
+        Some("hostile-case") => cmd_hostile_case(args[2].parse().unwrap()),
         Some("embedded-font") => cmd_embedded_font(),
         Some("writer-configs") => cmd_writer_configs(args.get(2).map(|s| s == "full").unwrap_or(false)),
         Some("notes-history") => cmd_notes_history(args.get(2).and_then(|s| s.parse().ok()).unwrap_or(3)),
